@@ -240,3 +240,12 @@ def sany(module_path: str) -> None:
     out = p.stdout + p.stderr
     if p.returncode != 0 or "Semantic errors" in out or "***Parse Error***" in out or "Fatal errors" in out or "Could not" in out:
         raise TLCError(f"SANY failed on {module_path}:\n{out[-3000:]}")
+
+
+def write_mc_module(dirpath: str, name: str, extends: str, definitions: Mapping[str, str]) -> str:
+    """Write a wrapper module (constants as definitions, for values the cfg syntax cannot express). Returns its path."""
+    path = os.path.join(dirpath, name + ".tla")
+    body = "\n".join(f"{k} == {v}" for k, v in definitions.items())
+    with open(path, "w") as f:
+        f.write(f"---- MODULE {name} ----\nEXTENDS {extends}\n{body}\n====\n")
+    return path
